@@ -393,9 +393,59 @@ def h_case(X, hi_lo, hi_hi):
     X.reach("end")
 
 
+def h_parts(X):
+    """"applied to the documented part of the flow": the part an operator looks at may exist in two places of a request
+    (destination host vs. Host header / :authority; request vs. response headers and bodies) -- both must be searched
+    where the documentation says so (~d: domain, ~h/~b/~t: either message)"""
+    import re
+
+    from mitmproxy import flowfilter, http
+
+    op = X.choose("operator", ["~d", "~h", "~b", "~t"])
+    if op == "~d":
+        host = X.choose("destination_host", ["10.0.0.5", "origin.example"])
+        hdr = X.choose("host_header", [None, "front.example", "origin.example:8080", "FRONT.example"])
+        h2 = X.boolean("http2_authority")
+        pat = X.choose("regex", ["origin", "front", r"10\.0", "zzz", r"example$"])
+        headers = [] if (hdr is None or h2) else [(b"Host", hdr.encode())]
+        f = tflow.tflow(req=tutils.treq(host=host, port=80, scheme=b"http", authority=(hdr or "").encode() if h2 else b"", path=b"/",
+                                        http_version=b"HTTP/2.0" if h2 else b"HTTP/1.1", headers=mflow_headers(headers)))
+        names = [host] + ([hdr.rsplit(":", 1)[0]] if hdr else [])
+        want = any(re.search(pat, n, re.IGNORECASE) for n in names)
+        what = f"~d {pat} on destination host {host!r}, Host/authority {hdr!r}"
+    else:
+        where = X.choose("only_in", ["request", "response", "neither"])
+        f = tflow.tflow(resp=True)
+        f.request.headers["content-type"] = "text/plain"
+        f.response.headers["content-type"] = "text/plain"
+        if op == "~h":
+            if where != "neither":
+                (f.request if where == "request" else f.response).headers["X-Needle"] = "v"
+            pat = "x-needle"
+        elif op == "~b":
+            f.request.content, f.response.content = b"plain", b"plain"
+            if where != "neither":
+                (f.request if where == "request" else f.response).content = b"has NEEDLE inside"
+            pat = "needle"
+        else:
+            if where != "neither":
+                (f.request if where == "request" else f.response).headers["content-type"] = "application/x-needle"
+            pat = "needle"
+        want = where != "neither"
+        what = f"{op} {pat} with the match only in {where}"
+    flt = flowfilter.parse(f"{op} {pat}")
+    X.check(flt is not None, "C42/parts/rejected", what)
+    got = bool(flt(f))
+    X.reach("matched" if got else "not-matched")
+    X.check(got == want, f"C42/parts/{op}", f"{what}: filter says {got}, documented semantics {want}")
+
+
 def obligations(tier):
     quick = tier == "quick"
     obs = [
+        Symx("documented-parts", h_parts,
+             bounds="~d over destination host x Host header / :authority (absent, different, with port, other case) x 5 regexes; ~h / ~b / ~t with the match only in the request, only in the response, or nowhere",
+             encoded=ENCODED, must_reach=["matched", "not-matched"]),
         Symx("atoms", h_atoms,
              bounds=f"{len(ATOMS)} operator/argument pairs (every documented operator) x quoting (bare/double/single where legal) x {len(CONTEXTS)} contexts {CONTEXTS}, verdict on 4 fixed flows",
              encoded=ENCODED, must_reach=["end", "parsed", "unary", "bare", "dq", "sq"], parallel_depth=1),
